@@ -107,6 +107,46 @@ def model_conditional_case(col, seed):
         col.add(r)
 
 
+def dist_reg_mcmc_kernels_case(col, rng):
+    """the variance kernels as the convenience entry point lsl.dist_reg_mcmc builds them (not tau2_gibbs_kernel called by hand): with two non-parametric smooths of
+    different penalties / hyper-parameters / coefficients each kernel draws from ITS OWN smooth's full conditional"""
+    n, p, q = 15, 5, 4
+    b = DistRegBuilder()
+    b.add_response(rng.normal(size=n).astype(np.float32), tfd.Normal)
+    b.add_predictor("loc", tfb.Identity)
+    b.add_predictor("scale", tfb.Exp)
+    K1 = (np.diff(np.eye(p), n=2, axis=0).T @ np.diff(np.eye(p), n=2, axis=0)).astype(np.float32)
+    K2 = (3.0 * np.eye(q)).astype(np.float32)
+    b.add_np_smooth(rng.normal(size=(n, p)).astype(np.float32), K1, a=0.5, b=0.3, predictor="loc", name="sloc")
+    b.add_p_smooth(np.ones((n, 1), np.float32), m=0.0, s=10.0, predictor="loc", name="ploc")
+    b.add_np_smooth((0.1 * rng.normal(size=(n, q))).astype(np.float32), K2, a=4.0, b=2.5, predictor="scale", name="sscale")
+    model = b.build_model()
+    model.vars["sloc_beta"].value = jnp.asarray(rng.normal(size=p), jnp.float32)
+    model.vars["sscale_beta"].value = jnp.asarray(0.3 * rng.normal(size=q), jnp.float32)
+    import liesel.model as lsl_
+    builder = lsl_.dist_reg_mcmc(model, seed=1, num_chains=1)
+    gibbs = {k.position_keys[0]: k for k in builder.kernels if type(k).__name__ == "GibbsKernel"}
+    iface = gs.LieselInterface(model)
+    state = model.state
+    bad = None
+    if sorted(gibbs) != ["sloc_tau2", "sscale_tau2"]:
+        bad = f"dist_reg_mcmc built Gibbs kernels for {sorted(gibbs)}, the model has the smoothing variances ['sloc_tau2', 'sscale_tau2']"
+    for nm, K in (("sscale", K2), ("sloc", K1)):
+        if bad:
+            break
+        k = gibbs[f"{nm}_tau2"]
+        k.set_model(iface)
+        a, bb = float(model.vars[f"{nm}_a"].value), float(model.vars[f"{nm}_b"].value)
+        beta = np.asarray(model.vars[f"{nm}_beta"].value, np.float64)
+        a_star, b_star = a + np.linalg.matrix_rank(K) / 2, bb + 0.5 * beta @ K.astype(np.float64) @ beta
+        key = jax.random.PRNGKey(int(rng.integers(0, 2**31)))
+        draw = float(k._transition_fn(key, state)[f"{nm}_tau2"])
+        want = b_star / float(jax.random.gamma(key, jnp.float32(a_star)))
+        if not np.isclose(draw, want, rtol=2e-3):
+            bad = f"kernel of {nm}_tau2 built by dist_reg_mcmc: draw {draw}, its own full conditional IG(a*={a_star}, b*={b_star:.4f}) with that key gives {want}"
+    col.add(None if bad is None else {"sig": "native::gibbs::tau2_kernels_of_dist_reg_mcmc", "what": bad, "input": {"smooths": ["sloc (np, RW2 penalty, a=.5, b=.3)", "ploc (parametric)", "sscale (np, 3*I, a=4, b=2.5)"]}})
+
+
 def discrete_case(col, rng):
     values = [0.0, 1.0, 2.5]
     probs = [0.2, 0.5, 0.3]
@@ -408,6 +448,11 @@ def bounded(tier, seed):
             col.add({"sig": f"native::gibbs::exception::{type(e).__name__}", "what": str(e)[:200], "input": {"scenario": "kernel vs model density (binary64 process)"}})
         n += 2
         try:
+            dist_reg_mcmc_kernels_case(col, rng)
+        except Exception as e:
+            col.add({"sig": f"native::gibbs::exception::{type(e).__name__}", "what": str(e)[:200], "input": {"scenario": "kernels built by dist_reg_mcmc"}})
+        n += 1
+        try:
             two_smooths_case(col, rng)
         except Exception as e:
             col.add({"sig": f"native::gibbs::exception::{type(e).__name__}", "what": str(e)[:200], "input": {"scenario": "two smooths in one model"}})
@@ -447,6 +492,6 @@ def bounded(tier, seed):
             "rule": (CORE_RULE + "; " + f"BOUNDED: DistRegBuilder models with a full-rank and a rank-deficient (second-difference) penalty, hyperparameters a, b left as built or changed AFTER the kernel was created, plus a penalty scaled by 1e-7 and a full-rank penalty with one eigenvalue of 1e-8 (rank by matrix_rank vs. eigenvalue thresholds): "
                      "the inverse-gamma shape and scale solved from three evaluations of the MODEL's log-density in tau2 (coefficients 100 + noise, b = 0.001, first-difference and full-rank penalty) against the scale the kernel's draws reveal (fresh binary64 interpreter process); "
                      "the kernel's draw for a fixed key equals b*/gamma(key, a*) with a* = a + rank/2, b* = b + beta'K beta/2 from the state, and model log-density minus log IG(a*, b*) is constant "
-                     "over a tau2 grid; two smooths with different penalties and hyper-parameters in one model, kernels used in both orders; finite-discrete kernel with the grid taken from a logits-parameterised prior with a float32-zero-probability outcome; finite-discrete kernel on outcome grids of 150 / 128 points (one logit per outcome, captured at the sampler); finite-discrete kernel on k ~ FiniteDiscrete with a downstream Normal likelihood: draw = outcomes[categorical(key, joint log-densities)], eager and jit; a model in which the discrete variable parameterises the prior of a parameter and the distribution of an unflagged variable (logits captured at jax.random.categorical and compared with the joint log-density up to a constant); the same for a Bernoulli variable with derived and with explicitly given (unsorted) outcomes; two-outcome variables whose full conditional is numerically a point mass (log-odds ~ +-270, zero prior mass on the first outcome): all draws equal that outcome. "
+                     "over a tau2 grid; two smooths with different penalties and hyper-parameters in one model, kernels used in both orders, and the same with the kernels as lsl.dist_reg_mcmc builds them; finite-discrete kernel with the grid taken from a logits-parameterised prior with a float32-zero-probability outcome; finite-discrete kernel on outcome grids of 150 / 128 points (one logit per outcome, captured at the sampler); finite-discrete kernel on k ~ FiniteDiscrete with a downstream Normal likelihood: draw = outcomes[categorical(key, joint log-densities)], eager and jit; a model in which the discrete variable parameterises the prior of a parameter and the distribution of an unflagged variable (logits captured at jax.random.categorical and compared with the joint log-density up to a constant); the same for a Bernoulli variable with derived and with explicitly given (unsorted) outcomes; two-outcome variables whose full conditional is numerically a point mass (log-odds ~ +-270, zero prior mass on the first outcome): all draws equal that outcome. "
                      f"Both kernels also through GibbsKernel.transition with integer start values (stored value = draw). The sampling distributions themselves are not tested (sampler primitives trusted). seed={seed}, {reps} repetition(s)."),
             "samples": [{"hyperparameters_changed_after_kernel_creation": True, "rank_deficient": True}], "exhaustive": False, "violations": col.violations}
